@@ -53,6 +53,7 @@ fn weights(chain: bool, restart: bool) -> XWeights {
 		restart: if restart { 3 } else { 0 },
 		resolve_cut: 10,
 		mine_many: if chain { 1 } else { 0 },
+		timer_s: 3,
 	}
 }
 
@@ -151,22 +152,213 @@ fn run(c: &Case, ctx: &mut Ctx, sim: &mut Sim, st: &mut C03, tags: &mut Vec<&'st
 	Ok(())
 }
 
+// ------------------------------------------------------------------------------------------------
+// exact accounting: one payment in flight at a time, S's balance change measured around each payment
+// ------------------------------------------------------------------------------------------------
+
+#[derive(Clone, Debug, Serialize, Deserialize)]
+struct Round {
+	send: XOp,
+	noise: Vec<XOp>,
+	/// 0-2 the recipient claims, 3-4 fails back, 5 the sender abandons and the recipient fails back
+	outcome: u8,
+	cut_at: u8,
+	reconnect: bool,
+}
+
+#[derive(Clone, Debug, Serialize, Deserialize)]
+struct AcctCase {
+	spec: WorldSpec,
+	rounds: Vec<Round>,
+}
+
+fn acct_strat() -> impl Strategy<Value = AcctCase> {
+	let send = xop_strategy(XWeights { base: OpWeights::zero(), send_route: 8, underpay: 2, mpp: 6, router: 5, keysend: 3, dup: 0, abandon: 0, async_s: 0, interrupt: 0, snapshot: 0, restart: 0, resolve_cut: 0, mine_many: 0, timer_s: 0 });
+	let noise = xop_strategy(XWeights {
+		base: OpWeights { deliver: 16, flush: 2, events: 6, forwards: 6, disconnect: 2, reconnect: 4, timer: 3, complete: 4, pump: 4, ..OpWeights::zero() },
+		send_route: 0,
+		underpay: 0,
+		mpp: 0,
+		router: 0,
+		keysend: 0,
+		dup: 2,
+		abandon: 0,
+		async_s: 3,
+		interrupt: 5,
+		snapshot: 2,
+		restart: 2,
+		resolve_cut: 0,
+		mine_many: 0,
+		timer_s: 2,
+	});
+	let round = (send, proptest::collection::vec(noise, 0..7), 0u8..6, 0u8..8, proptest::bool::weighted(0.85)).prop_map(|(send, noise, outcome, cut_at, reconnect)| Round { send, noise, outcome, cut_at, reconnect });
+	(spec_strategy(), proptest::collection::vec(round, 1..6)).prop_map(|(spec, rounds)| AcctCase { spec, rounds })
+}
+
+fn acct_oracle(c: &AcctCase, ctx: &mut Ctx) -> CaseResult {
+	let mut sim = c.spec.build(false);
+	if let Err(e) = sim.c03_seed_graphs() {
+		return Err(Failure::new("harness-graph-seed", e));
+	}
+	let mut st = C03::new(&mut sim);
+	let r = acct_run(c, ctx, &mut sim, &mut st);
+	if ctx.replay && r.is_err() {
+		println!("==== payments ====");
+		for (i, m) in st.meta.iter().enumerate() {
+			println!("pay#{} {:?} to n{} amt={} api={} send@{} claim@{:?} sent@{:?} failed@{:?} first_sent={:?}", i, m.kind, m.to, m.amt, m.api, m.send_step, m.claim_step, m.sent_obs, m.failed_obs, m.first_sent);
+		}
+		println!("restarts (step, snapshot step): {:?}; foreign: {:?}", st.restarts, st.co_dead);
+		println!("==== history ====\n{}", dump_history(&sim));
+	}
+	r
+}
+
+fn acct_run(c: &AcctCase, ctx: &mut Ctx, sim: &mut Sim, st: &mut C03) -> CaseResult {
+	let mut measured = 0u64;
+	let mut measured_sent = 0u64;
+	let mut measured_failed = 0u64;
+	let mut disturbed = 0u64;
+	let mut stopped = false;
+	for r in c.rounds.iter() {
+		// a quiescent world with nothing in flight and all of S's channels alive
+		let quiet = sim.c03_settle(30);
+		st.step(sim)?;
+		let clean = |sim: &Sim| sim.w.nodes[S].node.list_channels().iter().all(|d| d.pending_outbound_htlcs.is_empty() && d.pending_inbound_htlcs.is_empty());
+		let Some(before) = sim.c03_s_capacity() else {
+			stopped = true;
+			break;
+		};
+		if !quiet || !clean(sim) {
+			stopped = true;
+			break;
+		}
+		let n_before = st.meta.len();
+		let tag = st.apply(sim, &c.spec, &r.send)?;
+		st.step(sim)?;
+		if st.meta.len() == n_before {
+			ctx.label(&format!("round-skipped:{}", tag));
+			continue;
+		}
+		let idx = n_before;
+		let mut round_disturbed = false;
+		for op in r.noise.iter() {
+			let t = st.apply(sim, &c.spec, op)?;
+			if t == "restart-failed" {
+				ctx.label("foreign-failure:C10:restart-deserialization");
+				return Ok(());
+			}
+			round_disturbed |= matches!(t, "disconnect" | "interrupt" | "restart" | "async-on");
+			st.step(sim)?;
+		}
+		// let the payment reach the recipient, then resolve it as generated
+		if r.outcome == 5 {
+			st.apply(sim, &c.spec, &XOp::Abandon { pay: 0 })?;
+		}
+		let t = st.apply(sim, &c.spec, &XOp::ResolveCut { pay: 0, claim: r.outcome <= 2, cut_at: r.cut_at, reconnect: r.reconnect })?;
+		round_disturbed |= t == "resolve-cut";
+		st.step(sim)?;
+		let quiet = sim.c03_settle(40);
+		st.step(sim)?;
+		// a payment that is still claimable (the cut came first) is resolved now
+		if sim.pays[idx].state == PayState::Claimable {
+			if r.outcome <= 2 {
+				sim.claim(idx);
+			} else {
+				sim.fail_back(idx);
+			}
+			sim.c03_settle(40);
+			st.step(sim)?;
+		}
+		let Some(after) = sim.c03_s_capacity() else {
+			stopped = true;
+			break;
+		};
+		if !quiet || !clean(sim) {
+			stopped = true;
+			break;
+		}
+		let m = &st.meta[idx];
+		let sent = !m.sent_obs.is_empty();
+		let failed = !m.failed_obs.is_empty();
+		let detail = format!("pay#{} ({:?}, api {}): S's outbound capacity {} -> {} msat, PaymentSent {:?} (amount, fee), PaymentFailed at {:?}", idx, m.kind, m.api, before, after, m.first_sent, m.failed_obs);
+		if sent {
+			// (a) the balances fell by exactly the amount plus the reported fee
+			let (a, f) = m.first_sent.unwrap();
+			let (Some(a), Some(f)) = (a, f) else {
+				return Err(Failure::new("payment-sent-untruthful", format!("PaymentSent without amount or fee: {}", detail)).with_key("payment-sent-untruthful/amount-or-fee-missing"));
+			};
+			if before < after || before - after != a + f {
+				return Err(Failure::new("payment-sent-untruthful", format!("S's balance fell by {} msat but PaymentSent reported amount + fee = {} msat: {}", before as i128 - after as i128, a + f, detail)).with_key("payment-sent-untruthful/balance-decrease"));
+			}
+			measured_sent += 1;
+		} else {
+			// (c) a payment that failed (or never left, or was lost by a restart) leaves the balances whole
+			if before != after {
+				return Err(Failure::new("balance-not-whole", format!("the payment did not succeed but S's balance changed by {} msat: {}", after as i128 - before as i128, detail)).with_key(if failed { "balance-not-whole/after-payment-failed" } else { "balance-not-whole/no-terminal-event" }));
+			}
+			if failed {
+				measured_failed += 1;
+			}
+		}
+		measured += 1;
+		if round_disturbed {
+			disturbed += 1;
+		}
+	}
+	let quiet = st.end_game(sim, &[0, 3, 0, 3], 420)?;
+	st.finish(sim, quiet)?;
+	let s = st.stats.clone();
+	ctx.label_if(stopped, "stopped:not-quiescent-or-channel-closed");
+	ctx.label_if(measured_sent > 0, "balance-decrease-equals-amount-plus-fee");
+	ctx.label_if(measured_failed > 0, "balance-whole-after-payment-failed");
+	ctx.label_if(s.redelivered_removals > 0, "fulfil-or-fail-redelivered-after-reconnect");
+	ctx.label_if(s.restarts > 0, "restart");
+	ctx.label_if(s.path_failed_attributed > 0, "path-failure-attribution-checked");
+	for k in [Kind::Route, Kind::Underpay, Kind::Mpp, Kind::Router, Kind::Keysend] {
+		ctx.label_if(st.meta.iter().any(|m| m.kind == k && !m.sent_obs.is_empty()), &format!("sent:{:?}", k));
+		ctx.label_if(st.meta.iter().any(|m| m.kind == k && !m.failed_obs.is_empty()), &format!("failed:{:?}", k));
+	}
+	if let Some(f) = &st.co_dead {
+		ctx.label(&format!("foreign-failure:C01:{}", f));
+	}
+	ctx.sub_evaluations(measured);
+	ctx.nontrivial_if(measured > 0 && disturbed > 0);
+	ctx.summary(json!({"topo": format!("{:?}", c.spec.topo), "rounds": c.rounds.len(), "measured": measured, "sent": measured_sent, "failed": measured_failed, "disturbed_rounds": disturbed}));
+	Ok(())
+}
+
 fn main() {
 	install_recording_signer();
 	let mut c = Check::new("C03", "exploration");
 	c.assume("all nodes are unmodified LDK nodes; the sender S (node 0) funds its channels and is the only payer; messages are delivered FIFO per direction, individually, at generated times");
 	c.assume("restarts of S use any ChannelManager snapshot taken earlier in the run (stale managers are legal per the ChannelManager persistence docs) with, per channel, the durable or the latest written ChannelMonitor image");
+	c.assume("PaymentSent.amount_msat + fee_paid_msat is compared with the HTLC amounts S actually had fulfilled; when a channel anywhere on the way was closed with a part in flight the library documents that the event may overstate (a forwarder or the recipient forfeited a dust HTLC) and only 'not understated' is checked");
+	c.assume("R-level liveness (recipient's PaymentClaimed => PaymentSent) is asserted only when no channel was closed during the run; with closures only S's own HTLCs decide (fulfil irrevocably committed at S, or the peer's on-chain preimage claim of S's HTLC output confirmed => PaymentSent)");
+	c.assume("'handled and persisted' = a manager snapshot written after the event was handled was used for the restart together with monitor images containing every update that was in flight when it was written; a copy still queued in the snapshot plus the copy the reloaded manager regenerates from its monitors (same first event batch) is a permitted repeat");
 	c.assume("'eventually' is decided at a bounded end game (settle, resolve claimable payments by generated choice, mine up to 420 blocks); runs that do not reach quiescence with chain resolution complete are labelled, not flagged");
+	let thorough = c.tier() == Tier::Thorough;
+	let max_ops = if thorough { 70 } else { 45 };
 	c.part_with(
 		PartSpec {
 			name: "lifecycle",
-			rule: "wip",
+			rule: "random world (pair, line of 3/4, diamond, parallel channels; all channel types and parameters of netsim's world_spec; forwarding cltv deltas 72..83) + 8..N generated operations: S pays by explicit single path, explicit multi-path route (2-4 parts), the real router with Retry::Attempts(0..3) (with and without MPP), keysend, underpaying routes a forwarder must fail; duplicate-id sends, abandon_payment; recipients claim / fail back / ignore until timeout; single-message delivery, disconnect / reconnect at every point of the removal dance (ResolveCut, Interrupt), asynchronous persistence at S with generated completion order, manager snapshots and restarts of S from any earlier snapshot with durable or latest-written monitors, force closes by any node, block mining with generated inclusion, timer ticks; then a bounded end game (settle, resolve claimable payments by generated choice, mine until nothing of S is in flight). Oracles (a)-(g) of the design over S's events, list_recent_payments, API results, wire-level HTLC tracking and the BOLT-2 model. Non-trivial: a terminal event was reached and the history has a fulfil/fail redelivered after reconnection, a restart of S between send and terminal event, an MPP with mixed part outcomes, or an on-chain resolution of one of S's HTLCs",
 			quick_cases: 1500,
-			thorough_cases: 60_000,
+			thorough_cases: 40_000,
 			max_shrink: 300,
 		},
-		|| strat(45, true, true),
+		move || strat(max_ops, true, true),
 		oracle,
+	);
+	c.part_with(
+		PartSpec {
+			name: "exact-accounting",
+			rule: "same worlds; 1..5 rounds, each: settle to quiescence, read S's balances (sum of outbound_capacity_msat over its channels), send ONE payment (any kind), 0..6 disturbance operations (single deliveries, disconnect / reconnect, interrupt, asynchronous persistence, snapshot / restart of S, duplicate-id send, timer ticks), the recipient claims or fails back (optionally after abandon_payment) with the removal dance cut after 0..7 messages and resumed after reconnection, settle, read the balances again: PaymentSent => decrease == amount_msat + fee_paid_msat exactly; otherwise the balances are unchanged; exactly one terminal event. A round ends the case when a channel of S closed or quiescence was not reached. Non-trivial: >=1 measured payment whose round contained a disconnect, restart, cut or asynchronous update",
+			quick_cases: 500,
+			thorough_cases: 12_000,
+			max_shrink: 300,
+		},
+		acct_strat,
+		acct_oracle,
 	);
 	c.finish();
 }
